@@ -210,3 +210,68 @@ def idecl(d):
 
 def imodule(m):
     return 'Ns("",[' + ',\n'.join(idecl(x) for x in m.content) + '])'
+
+
+# ---------------------------------------------------------------- C++-spelling dump (mirror of IDump.cppModule)
+def c_args(al):
+    return ",".join(a.ctype.to_cpp() + " " + a.name + ("=" + a.default if a.default is not None else "") for a in al.list())
+
+
+def c_method(tag, m, is_const):
+    return ("  " + tag + " " + m.name + " | " + m.to_cpp() + " | " + m.return_type.to_cpp() + " | (" + c_args(m.args) + ")"
+            + (" const" if is_const else "") + "\n")
+
+
+def c_class(c):
+    out = ("C " + c.name + " | " + c.to_cpp() + " | " + "::".join(c.namespaces()) + " | "
+           + (str(c.parent_class) if c.parent_class else "-") + (" | virtual" if c.is_virtual else "") + "\n")
+    for k in c.ctors:
+        out += "  K " + k.name + " | " + k.to_cpp() + " | (" + c_args(k.args) + ")\n"
+    for m in c.methods:
+        out += c_method("M", m, bool(m.is_const))
+    for m in c.static_methods:
+        out += c_method("S", m, False)
+    for p in c.properties:
+        out += "  P " + p.name + " | " + p.ctype.to_cpp() + "\n"
+    for o in c.operators:
+        out += "  O " + o.operator + " | " + o.return_type.to_cpp() + " | (" + c_args(o.args) + ")\n"
+    for e in c.enums:
+        out += "  E " + e.name + "\n"
+    for d in c.dunder_methods:
+        out += "  U " + d.name + " | (" + c_args(d.args) + ")\n"
+    return out
+
+
+def ns_path(o):
+    p = getattr(o, 'parent', '')
+    names = []
+    while not (isinstance(p, str) or p is None):
+        names.insert(0, p.name)
+        p = getattr(p, 'parent', '')
+    return "::".join(names)
+
+
+def c_decl(d):
+    import gtwrap.template_instantiator as inst
+    if isinstance(d, inst.InstantiatedClass):
+        return c_class(d)
+    if isinstance(d, inst.InstantiatedGlobalFunction):
+        return ("F " + d.name + " | " + d.to_cpp() + " | " + ns_path(d) + " | " + d.return_type.to_cpp()
+                + " | (" + c_args(d.args) + ")\n")
+    if isinstance(d, inst.InstantiatedDeclaration):
+        return "D " + d.name + " | " + d.to_cpp() + " | " + "::".join(d.namespaces()) + "\n"
+    if isinstance(d, ip.Namespace):
+        return "N " + d.name + " {\n" + "".join(c_decl(x) for x in d.content) + "}\n"
+    if isinstance(d, ip.ForwardDeclaration):
+        return "W " + d.typename.to_cpp() + "\n"
+    if isinstance(d, ip.Include):
+        return "I " + d.header + "\n"
+    if isinstance(d, ip.Enum):
+        return "E " + d.name + "\n"
+    if isinstance(d, ip.Variable):
+        return "V " + d.name + " | " + d.ctype.to_cpp() + "\n"
+    raise TypeError('unexpected element %r' % (d,))
+
+
+def cpp_module(m):
+    return "".join(c_decl(x) for x in m.content)
